@@ -34,20 +34,70 @@ func vhImportedParam(holder *annotations.AnnotationHolder, fv *gast.FileVersion,
 
 // builds a pipeline whose graph holds nCtrl controllers; controller i has one route with a body
 // parameter of imported type T<i> from package p<i mod nPkgs>
+// an enum whose constants sort differently by name and by value, registered in graph and cache
+func vhAddEnum(g *symboldg.SymbolGraph, cache *caching.MetadataCache) (graphs.SymbolKey, *gast.FileVersion) {
+	efv := &gast.FileVersion{Path: "example.com/e/e.go", Hash: "h"}
+	node := &ast.Ident{Name: "Prio", NamePos: token.Pos(500)}
+	enum := metadata.EnumMeta{
+		SymNodeMeta: metadata.SymNodeMeta{Name: "Prio", PkgPath: "example.com/e", Node: node, FVersion: efv, SymbolKind: common.SymKindEnum},
+		ValueKind:   metadata.EnumValueKindInt,
+	}
+	for i, nv := range []struct {
+		name string
+		val  int
+	}{{"PrioHigh", 3}, {"PrioLow", 1}, {"PrioMid", 2}} {
+		enum.Values = append(enum.Values, metadata.EnumValueDefinition{
+			SymNodeMeta: metadata.SymNodeMeta{Name: nv.name, Node: &ast.Ident{Name: nv.name, NamePos: token.Pos(510 + i)}, FVersion: efv}, Value: nv.val})
+	}
+	if _, err := g.AddEnum(symboldg.CreateEnumNode{Data: enum}); err != nil {
+		symxAssert(false, "C19.enum-fixture-builds")
+	}
+	cached := enum
+	if err := cache.AddEnum(&cached); err != nil {
+		symxAssert(false, "C19.enum-fixture-caches")
+	}
+	return graphs.NewSymbolKey(node, efv), efv
+}
+
+func vhEnumParam(holder *annotations.AnnotationHolder, fv *gast.FileVersion, key graphs.SymbolKey) metadata.FuncParam {
+	ref := typeref.NewNamedTypeRef(&key, nil)
+	return metadata.FuncParam{
+		SymNodeMeta: metadata.SymNodeMeta{Name: "p", Annotations: holder, FVersion: fv},
+		Ordinal:     1,
+		Type: metadata.TypeUsageMeta{
+			SymNodeMeta: metadata.SymNodeMeta{Name: "Prio", PkgPath: "example.com/e", SymbolKind: common.SymKindEnum, FVersion: fv},
+			Import:      common.ImportTypeAlias,
+			Root:        &ref,
+		},
+	}
+}
+
 func vhBuildPipeline(names []string, nPkgs int) *GleecePipeline {
+	return vhBuildPipelineEnum(names, nPkgs, false)
+}
+
+func vhBuildPipelineEnum(names []string, nPkgs int, withEnum bool) *GleecePipeline {
 	g := symboldg.NewSymbolGraph()
 	cfg := &definitions.GleeceConfig{}
-	p := &GleecePipeline{gleeceConfig: cfg, metadataCache: caching.NewMetadataCache(), syncedProvider: providers.NewSyncedProvider(), symGraph: &g}
+	cache := caching.NewMetadataCache()
+	p := &GleecePipeline{gleeceConfig: cfg, metadataCache: cache, syncedProvider: providers.NewSyncedProvider(), symGraph: &g}
+	var enumKey graphs.SymbolKey
+	if withEnum {
+		enumKey, _ = vhAddEnum(&g, cache)
+	}
 	for i, name := range names {
 		fv := &gast.FileVersion{Path: "ctl" + vhD(i) + ".go", Hash: "h"}
 		routeHolder := annotations.NewAnnotationHolderFromData([]annotations.Attribute{
 			{Name: annotations.GleeceAnnotationMethod, Value: "POST"}, {Name: annotations.GleeceAnnotationRoute, Value: "/r" + vhD(i)},
-			{Name: annotations.GleeceAnnotationBody, Value: "b"}}, nil)
+			{Name: annotations.GleeceAnnotationBody, Value: "b"}, {Name: annotations.GleeceAnnotationQuery, Value: "p"}}, nil)
 		ctrlHolder := annotations.NewAnnotationHolderFromData([]annotations.Attribute{
 			{Name: annotations.GleeceAnnotationTag, Value: "T"}, {Name: annotations.GleeceAnnotationRoute, Value: "/c" + vhD(i)}}, nil)
 		recv := metadata.ReceiverMeta{
 			SymNodeMeta: metadata.SymNodeMeta{Name: "Op" + vhD(i), Annotations: &routeHolder, FVersion: fv, Node: &ast.Ident{Name: "Op" + vhD(i), NamePos: token.Pos(100 + i)}},
 			Params:      []metadata.FuncParam{vhImportedParam(&routeHolder, fv, "b", "T"+vhD(i), "example.com/p"+vhD(i%nPkgs), 10+i)},
+		}
+		if withEnum {
+			recv.Params = append(recv.Params, vhEnumParam(&routeHolder, fv, enumKey))
 		}
 		ctrl := metadata.ControllerMeta{
 			Struct: metadata.StructMeta{SymNodeMeta: metadata.SymNodeMeta{Name: name, PkgPath: "example.com/ctl", Annotations: &ctrlHolder, FVersion: fv,
@@ -62,8 +112,9 @@ func vhBuildPipeline(names []string, nPkgs int) *GleecePipeline {
 }
 
 type vhFlat struct {
-	names   []string
-	serials []uint64
+	names      []string
+	serials    []uint64
+	enumValues []string // value lists of enum-typed parameters, as the routes see them
 }
 
 func vhFlatten(cs []definitions.ControllerMetadata) vhFlat {
@@ -73,6 +124,10 @@ func vhFlatten(cs []definitions.ControllerMetadata) vhFlat {
 		for _, r := range c.Routes {
 			for _, p := range r.FuncParams {
 				f.serials = append(f.serials, p.UniqueImportSerial)
+				if p.TypeMeta.AliasMetadata != nil {
+					f.enumValues = append(f.enumValues, p.TypeMeta.AliasMetadata.Values...)
+					f.enumValues = append(f.enumValues, "|")
+				}
 			}
 		}
 	}
@@ -93,6 +148,14 @@ func vhSameFlat(a, b vhFlat) bool {
 			return false
 		}
 	}
+	if len(a.enumValues) != len(b.enumValues) {
+		return false
+	}
+	for i := range a.enumValues {
+		if a.enumValues[i] != b.enumValues[i] {
+			return false
+		}
+	}
 	return true
 }
 
@@ -102,7 +165,11 @@ func vhC13(nCtrl int) {
 	symxNoWitnessReplay()
 	names := make([]string, nCtrl)
 	for i := range names {
-		names[i] = "C" + symxString("name"+vhD(i), 1, 1, "ab") + vhD(i) // distinct names with a symbolic sort order
+		// distinct names with a symbolic sort order, possibly differing only by letter case
+		names[i] = "C" + symxString("name"+vhD(i), 1, 1, "abB")
+		for j := 0; j < i; j++ {
+			symxAssume(names[j] != names[i])
+		}
 	}
 	rounds := 1
 	if !symxIsSymbolic() {
@@ -140,7 +207,7 @@ func vhC19(nCtrl int) {
 	for i := range names {
 		names[i] = "C" + vhD(i)
 	}
-	p := vhBuildPipeline(names, 2)
+	p := vhBuildPipelineEnum(names, 2, true)
 	before := len(p.symGraph.FindByKind(common.SymKindController))
 	m1, err1 := p.GenerateIntermediate()
 	m2, err2 := p.GenerateIntermediate()
@@ -148,9 +215,10 @@ func vhC19(nCtrl int) {
 	symxCover("C19.second-run")
 	symxAssert(vhSameFlat(vhFlatten(m1.Flat), vhFlatten(m2.Flat)), "C19.second-run-equals-first(controllers-routes-serials)")
 	symxAssert(len(m1.Models.Structs) == len(m2.Models.Structs) && len(m1.Models.Enums) == len(m2.Models.Enums), "C19.models-stable")
+	symxAssert(len(m1.Models.Enums) == 1 && len(m2.Models.Enums) == 1 && vhSameStringList(m1.Models.Enums[0].Values, m2.Models.Enums[0].Values), "C19.enum-model-stable")
 	symxAssert(len(p.symGraph.FindByKind(common.SymKindController)) == before, "C19.graph-does-not-grow")
 	// a brand-new session gives the same identifiers
-	q := vhBuildPipeline(names, 2)
+	q := vhBuildPipelineEnum(names, 2, true)
 	m3, err3 := q.GenerateIntermediate()
 	symxAssert(err3 == nil && vhSameFlat(vhFlatten(m1.Flat), vhFlatten(m3.Flat)), "C19.fresh-session-equals-cached-session")
 }
@@ -227,3 +295,15 @@ func vh_C19_cache_Q()    { vhC19Cache(3) }
 func vh_C13_two_runs_Q() { vhC13(2) }
 func vh_C13_two_runs_T() { vhC13(3) }
 func vh_C19_rerun_Q()    { vhC19(2) }
+
+func vhSameStringList(a, b []string) bool {
+	if len(a) != len(b) {
+		return false
+	}
+	for i := range a {
+		if a[i] != b[i] {
+			return false
+		}
+	}
+	return true
+}
